@@ -25,6 +25,9 @@ TRUSTED = [
     "z3, cvc5, sympy normal form, CPython ast; n and S enumerated (n<=3 quick, n<=4 thorough)",
 ]
 ASSUMPTIONS = TRUSTED
+TECHNIQUE = 'VC generation from the real AST of partial_transpose and realignment (callees by contract) + z3/normal-form discharge for all dimensions and entries; bounded run-time contracts for corollaries and the cvxpy path'
+LEVEL_TEXT = "Proof per enumerated (n <= 3/4, S, sys form, square or rectangular dimension table) instance for ALL local dimensions and ALL entries; realignment proved for all dA,dB,dA',dB' >= 2 from the contracts of swap and partial_transpose. Corollaries, omitted dims and the cvxpy path are bounded."
+ENGINES = ["E1-pyvc", "E3-E4-rtc"]
 from props.index_clauses import CLAUSES  # noqa: E402,F401
 
 
